@@ -453,6 +453,29 @@ impl Run {
         self.subs.push(rep);
     }
 
+    /// Register a sub-check that has no search tier: it only serves replay files (pinned
+    /// source-level reproductions of known findings).
+    pub fn replay_only<C, F>(&mut self, name: &str, check: F)
+    where
+        C: Debug + Clone + Serialize + DeserializeOwned + Send,
+        F: Fn(&C) -> V + Sync,
+    {
+        if let Mode::Replay(rf) = &self.mode {
+            if rf.sub != name {
+                return;
+            }
+            let case: C = match serde_json::from_value(rf.case.clone()) {
+                Ok(c) => c,
+                Err(e) => {
+                    eprintln!("harness error: replay case for {}/{} does not deserialise: {e}", self.prop, name);
+                    std::process::exit(2);
+                }
+            };
+            let v = guarded(&check, &case);
+            self.replay_result = ReplayResult { matched: true, verdict: Some(v) };
+        }
+    }
+
     /// Register and execute an exhaustive sub-check over an explicit finite list of cases
     /// (no sampling, no shrinking: every listed case is evaluated once).
     pub fn enumerate<C, F>(&mut self, name: &str, cases: Vec<C>, check: F)
